@@ -788,10 +788,43 @@ def regimen_rows_case(ctx, rng, idx):
         rng.uniform(0.1, 0.4, D.ERROR_MODELS[e][0]) for e in ems])
     names = pm.get_parameter_names()
     n = int(rng.integers(1, 5))
+    if kind in ('individual', 'population') and (idx // 5) % 2 == 1:
+        # several events for several samples (numbers with a common
+        # divisor): every sample ID lists every event once
+        n = int(rng.choice([2, 4, 6]))
+        period = float(rng.uniform(0.3, 0.6))
+        num = int(rng.choice([2, 4]))
+        start = float(rng.uniform(0, 0.3))
+        times = np.array([4.5, 0.9, 2.2])
+        t_end = 4.5
+        ev = R.events(dose, start, duration, period, num, t_end)
+    if (idx // 5) % 2 == 0:
+        # a dose exactly AT the last requested time, for periods and times
+        # that are round decimal numbers (0.2, 2.0): the event is listed
+        # (floor divisions of such floats may be one short)
+        hard = rng.random() < 0.7
+        for _ in range(200):
+            period = float(rng.choice([0.1, 0.2, 0.3, 0.7, 1.1, 2.4]))
+            start = float(rng.choice([0.0, 0.1, 0.5, 1.0]))
+            k_ = int(rng.integers(1, 13))
+            t_end = round(start + k_ * period, 10)
+            # (preferably a pair for which the float floor division of the
+            # elapsed time by the period is one short of the dose count)
+            if start + k_ * period == t_end and (
+                    not hard or (t_end - start) // period < k_):
+                break
+        num = [None, k_ + 3, k_ + 1][int(rng.integers(3))]
+        times = np.array([t_end, t_end / 2])
+        duration = min(duration, 0.4 * period)
+        ev = R.events(dose, start, duration, period, num, t_end)
+        feats_boundary = True
+    else:
+        feats_boundary = False
     seed = int(rng.integers(1, 2 ** 31))
     feats = {'family': 'regimen_rows', 'model': kind, 'n_samples': n,
              'regimen': {'dose': dose, 'start': start, 'duration': duration,
-                         'period': period, 'num': num}, 'events': len(ev)}
+                         'period': period, 'num': num}, 'events': len(ev),
+             'dose_at_the_last_time': feats_boundary}
     ctx.case(('regimen_rows', kind, min(len(ev), 3), period is None,
               num is None), True, sample=dict(feats, times=times))
     try:
